@@ -315,6 +315,24 @@ HOSTILE = {     # (input protocol, validator) -> {name: (body, wsgi env)}
         'set for an array': (b'take: {item: {tags: !!set {a, b}}}', {}),
     },
 }
+_S12 = 'http://www.w3.org/2003/05/soap-envelope'
+_soap12b = lambda inner: ('<s:Envelope xmlns:s="%s"><s:Body>%s</s:Body></s:Envelope>' % (_S12, inner)).encode()
+HOSTILE['soap12'] = {
+    'member the schema does not know': (_soap12b('<take xmlns="tns"><zzz/></take>'), {'CONTENT_TYPE': 'application/soap+xml'}),
+    'empty Body': (('<s:Envelope xmlns:s="%s"><s:Body/></s:Envelope>' % _S12).encode(), {'CONTENT_TYPE': 'application/soap+xml'}),
+    'a SOAP 1.1 envelope': (_soapb('<take xmlns="tns"><item><name>a</name></item></take>'), {'CONTENT_TYPE': 'application/soap+xml'}),
+    'bad base64': (_soap12b('<take xmlns="tns"><item><blob>abc</blob></item></take>'), {'CONTENT_TYPE': 'application/soap+xml'}),
+    'Fault as request': (_soap12b('<s:Fault xmlns:s="%s"><s:Code><s:Value>s:Sender</s:Value></s:Code></s:Fault>' % _S12), {'CONTENT_TYPE': 'application/soap+xml'}),
+}
+# the same kind of refusal leaving through another output protocol (the fault text crosses protocol families)
+HOSTILE['xml-http'] = {
+    'member the schema does not know': (b'<take xmlns="tns"><zzz/></take>', {}),
+    'bad base64': (b'<take xmlns="tns"><item><blob>abc</blob></item></take>', {}),
+    'text for a number': (b'<take xmlns="tns"><item><many>x</many></item></take>', {}),
+}
+HOSTILE['xml-json'] = dict(HOSTILE['xml-http'])
+HOSTILE['xml']['member the schema does not know'] = (b'<take xmlns="tns"><zzz/></take>', {})
+HOSTILE['soap11']['member the schema does not know'] = (_soapb('<take xmlns="tns"><zzz/></take>'), {})
 try:
     import msgpack as _mp
     HOSTILE['msgpack'] = {
@@ -339,19 +357,22 @@ def _hostile_app(proto, validator):
     key = (proto, validator)
     if key not in HOSTILE_APPS:
         from spyne.protocol.msgpack import MessagePackDocument
-        Pc = {'json': JsonDocument, 'xml': XmlDocument, 'soap11': Soap11, 'yaml': YamlDocument, 'msgpack': MessagePackDocument}[proto]
-        HOSTILE_APPS[key] = Application([HostileSvc], 'tns', in_protocol=Pc(validator=validator), out_protocol=Pc())
+        from spyne.protocol.soap import Soap12
+        Pc = {'json': JsonDocument, 'xml': XmlDocument, 'soap11': Soap11, 'yaml': YamlDocument, 'msgpack': MessagePackDocument,
+              'soap12': Soap12, 'xml-http': XmlDocument, 'xml-json': XmlDocument}[proto]
+        Po = {'xml-http': HttpRpc, 'xml-json': JsonDocument}.get(proto, Pc)
+        HOSTILE_APPS[key] = Application([HostileSvc], 'tns', in_protocol=Pc(validator=validator), out_protocol=Po())
     return HOSTILE_APPS[key]
 
 
-@harness('C10', params=[(p, v) for p in sorted(HOSTILE) for v in ('soft', None) + (('lxml',) if p in ('xml', 'soap11') else ())],
+@harness('C10', params=[(p, v) for p in sorted(HOSTILE) for v in ('soft', None) + (('lxml',) if p in ('xml', 'soap11', 'soap12', 'xml-http', 'xml-json') else ())],
          label=lambda p: '%s validator=%s' % p,
          functions=['spyne.server.wsgi.WsgiApplication.__call__', 'spyne.server._base.ServerBase.generate_contexts',
                     'spyne.protocol.xml.XmlDocument.complex_from_element', 'spyne.protocol.soap.soap11._from_soap',
                     'spyne.protocol.soap.soap11.Soap11.decompose_incoming_envelope',
                     'spyne.protocol.yaml.YamlDocument.create_in_document',
                     'spyne.protocol.dictdoc.hier.HierDictDocument._doc_to_object'],
-         bounds={'requests': 'the concrete protocol-specific hostile documents listed in HOSTILE (18 XML, 21 SOAP, 26 JSON, 14 YAML, 11 MessagePack), '
+         bounds={'requests': 'the concrete protocol-specific hostile documents listed in HOSTILE (19 XML, 22 SOAP 1.1, 5 SOAP 1.2, 26 JSON, 14 YAML, 11 MessagePack, 3 XML requests answered through HttpRpc / JSON), '
                              'each through WsgiApplication, validators soft / None (/ lxml for XML and SOAP), chunked or not'})
 def hostile_documents(sx, p):
     """a structurally hostile document is answered (normally or with a Client fault) - nothing escapes the WSGI callable,
@@ -366,7 +387,7 @@ def hostile_documents(sx, p):
     w = WsgiApplication(app, chunked=chunked)
     environ = {'REQUEST_METHOD': 'POST', 'PATH_INFO': '/', 'QUERY_STRING': '', 'SERVER_NAME': 'localhost',
                'SERVER_PORT': '80', 'wsgi.url_scheme': 'http', 'wsgi.input': io.BytesIO(body),
-               'CONTENT_LENGTH': str(len(body)), 'CONTENT_TYPE': 'text/xml' if proto in ('xml', 'soap11') else 'text/plain'}
+               'CONTENT_LENGTH': str(len(body)), 'CONTENT_TYPE': 'text/xml' if proto in ('xml', 'soap11', 'xml-http', 'xml-json') else 'text/plain'}
     environ.update(env)
     for k in [k for k, v in environ.items() if v is None]:
         del environ[k]              # a header that is not sent at all
@@ -379,6 +400,8 @@ def hostile_documents(sx, p):
         return True                 # decoded (leniently) and answered
     if HRAN:
         return False                # refused, yet the function ran
+    if proto == 'soap12':
+        return b':Sender' in out and b':Receiver' not in out
     if proto == 'soap11':
         return b'Client' in out and b'Server' not in out.replace(b'Server.', b'')[:0] + b'' or b'faultcode>soap11env:Client' in out \
             or b':Client' in out
